@@ -4,7 +4,6 @@
 //! Implement Hayson encoding
 //!
 
-use chrono::SecondsFormat;
 
 use crate::haystack::val::{
     Column, Coord, Date, DateTime, Dict, Grid, Marker, Na, Number, Ref, Remove, Symbol, Time, Uri,
@@ -136,7 +135,7 @@ impl Serialize for DateTime {
     fn serialize<S: Serializer>(&self, serializer: S) -> Result<S::Ok, S::Error> {
         let mut map = serializer.serialize_map(Some(2))?;
         map.serialize_entry("_kind", "dateTime")?;
-        map.serialize_entry("val", &self.to_rfc3339_opts(SecondsFormat::AutoSi, true))?;
+        map.serialize_entry("val", &self.to_rfc3339_string())?;
         if !self.is_utc() {
             map.serialize_entry("tz", &self.timezone_short_name())?;
         }
